@@ -311,6 +311,7 @@ where
     T: Service<Publish, Response = Either<Publish, PublishAck>, Error = E>,
     C: Service<ProtocolMessage, Response = ProtocolMessageAck, Error = DispatcherError<E>>,
 {
+    let qos2 = pkt.qos() == codec::QoS::ExactlyOnce;
     let ack = match ctx.call(svc, pkt).await.map_err(DispatcherError::Service)? {
         Either::Right(ack) => ack,
         Either::Left(pkt) => {
@@ -323,14 +324,21 @@ where
 
     if let Some(id) = NonZeroU16::new(packet_id) {
         log::trace!("Sending publish ack for {packet_id:?} id");
-        inner.info.borrow_mut().inflight.remove(&id);
+        // QoS 2 publish keeps packet id until PUBREL, unless publish is refused
+        if !qos2 || ack.reason_code as u8 >= 0x80 {
+            inner.info.borrow_mut().inflight.remove(&id);
+        }
         let ack = codec::PublishAck {
             packet_id: id,
             reason_code: ack.reason_code,
             reason_string: ack.reason_string,
             properties: ack.properties,
         };
-        Ok(Some(Encoded::Packet(Packet::PublishAck(ack))))
+        if qos2 {
+            Ok(Some(Encoded::Packet(Packet::PublishReceived(ack))))
+        } else {
+            Ok(Some(Encoded::Packet(Packet::PublishAck(ack))))
+        }
     } else {
         Ok(None)
     }
@@ -357,7 +365,12 @@ impl<C> Inner<C> {
     {
         let result = match self.control.call(pkt).await {
             Ok(result) => {
-                if let Some(id) = NonZeroU16::new(packet_id) {
+                // QoS 2 publish keeps packet id until PUBREL, unless publish is refused
+                let received = matches!(
+                    &result.packet,
+                    Pkt::Packet(Packet::PublishReceived(ack)) if (ack.reason_code as u8) < 0x80
+                );
+                if !received && let Some(id) = NonZeroU16::new(packet_id) {
                     self.info.borrow_mut().inflight.remove(&id);
                 }
                 result
